@@ -43,6 +43,7 @@ pub fn spec(id: &str) -> Option<PropSpec> {
         "C05" => Some(c05::spec_c05()),
         "C06" => Some(c06::spec_c06()),
         "C07" => Some(c06::spec_c07()),
+        "C08" => Some(c09::spec_c08()),
         "C09" => Some(c09::spec_c09()),
         "C10" => Some(c10::spec_c10()),
         "C11" => Some(c10::spec_c11()),
